@@ -1,8 +1,9 @@
 """C09 - Light hardware output equals the priority stack's colour.
 
 SUT: mpf.devices.light.Light (stack, fades, transparent fade-outs, hardware update with its shortcuts),
-light_player (machine + two modes, generated per run), and three kinds of hardware backend:
+light_player (machine + two modes, generated per run), and four kinds of hardware backend:
   direct    SimLight channels that record set_fade() and interpolate like hardware,
+  hwfade    LightPlatformDirectFade channels with a limited hardware fade time (stub records brightness+fade_ms),
   software  the in-tree `drivers` light platform (LightPlatformSoftwareFade stepping a coil's hold power),
   batch     the real PlatformBatchLightSystem feeding a stub "set N sequential channels" command.
 Oracle: reference stack model (models/light_stack.py) driven by the calls that were actually processed
@@ -16,9 +17,10 @@ RUNS = {"quick": 4000, "thorough": 90000}
 WALL_CAP = {"quick": 120, "thorough": 3000}
 RULE = ("one case = one generated history (6-45 operations: color/on/off/remove_from_stack_by_key/clear_stack, "
         "light_player events of a per-run generated light_player config in the machine and two modes, mode "
-        "start/stop, samples, quiescence checkpoints) against 15 lights on three backends (direct hardware fade, "
-        "software fade through coils, batched chains) in a per-run configuration (rgbw_white_behavior, update "
-        "rate, brightness, colour-correction profile, default fade, batch parameters), executed on the real Light/"
+        "start/stop, samples, quiescence checkpoints) against 17 lights on four backends (direct hardware fade, "
+        "limited hardware fade + stepping task, software fade through coils, batched chains) in a per-run "
+        "configuration (rgbw_white_behavior, update rate, brightness, colour-correction profile, default fade, "
+        "batch parameters), executed on the real Light/"
         "light_player/fade/batch code under a seeded scheduler (stalls, same-instant tie permutations). Operation "
         "instants are biased into running fades, onto fade ends (+-1 ms) and onto pending loop timers (software-"
         "fade / batch ticks, fade-out removal delays). A case is non-trivial when it reached a reach probe; "
@@ -36,14 +38,31 @@ REAL = ["mpf.devices.light.Light", "mpf.config_players.light_player.LightPlayer"
         "mpf.core.platform_batch_light_system", "mpf.core.rgb_color", "Mode start/stop, EventManager, DelayManager",
         "MachineController boot"]
 STUBS = ["event loop (SimLoop: virtual time, stalls, tie order)", "clock (SimClock)",
-         "hardware leaf objects: SimLight (records set_fade), SimDriver (records enable/disable), batch update "
-         "callback (records first channel + sequential brightness list)", "in-memory data manager"]
+         "hardware leaf objects: SimLight (records set_fade), SimDriver (records enable/disable), HwFadeLight "
+         "(records brightness + fade_ms), batch update callback (records first channel + sequential brightness "
+         "list)", "in-memory data manager"]
 ASSUMPTIONS = ["ties between equal priorities are resolved by key (string order), as implemented/documented by "
                "LightStackEntry; a color() with a lower priority than the live entry of the same key is ignored "
                "(documented in light.py); removing a key that is fading out ends the fade-out at once",
                "the brightness setting is fixed before the first light command of a run",
                "batch update callback is a stub; in some runs it really suspends (no in-tree platform does)",
                "time does not advance inside one loop iteration; lateness only through injected stalls"]
+# Oracle rules (violation classes) and relaxations
+#   logical_colour          get_color() == model at every sample / before+after every op, per channel within the
+#                           quantisation allowance the model derives (0 for static colours: exact equality)
+#   fade_outside_endpoints  same comparison, but the SUT colour is outside the box spanned by the running fade's
+#                           endpoints (statement: "never outside them")
+#   hw_final_<backend>      no fade running in the model (+ one software-fade/batch tick, see hw_settled/settle):
+#                           brightness last commanded to every channel == model colour after brightness / profile /
+#                           channel mapping, tolerance 1/255.  Relaxations: brightness-then-profile or profile-then-
+#                           brightness; the intermediate colour exact or quantised (floor/round/ceil); white_only's
+#                           "shade of white" judged on the logical or the corrected colour; a hardware fade that was
+#                           commanded late and therefore ends late is not judged (only the commanded brightness)
+#   batch_grouping          one batch command = sequential channels of one chain, <= max_batch_size, values in 0..1
+#   lp_unexpected_call / lp_missing_call   light_player and mode stop make exactly the Light API calls the generated
+#                           light_player config asks for (colour, fade, mode priority + entry priority, key)
+#   crash_in_light_path     an exception from MPF code reached the loop
+# Not judged (outside the statement): what the hardware shows WHILE a fade runs.
 STATE_ABSTRACTION = "(backend of the light, kind of op, what the top of the model stack is doing, stack depth)"
 
 # ---------------------------------------------------------------------------------------------------------
